@@ -74,6 +74,72 @@ type c13Rec struct {
 	skipped  int
 	finished []*dkg.DBState // every state handed to SaveFinished in this process (all nodes)
 	disabled atomic.Bool
+
+	// directory-entry events of the victim's groups/ folder in kernel order (inotify): creations, unlinks and
+	// renames are atomic, so the ORDER alone tells which sets of files existed on disk between two of them,
+	// even where no hook fires in between
+	wfd     int
+	wevents []c13DirEvent
+}
+
+type c13DirEvent struct {
+	Name string `json:"name"`
+	Op   string `json:"op"` // create | delete | moved_to | moved_from
+	Seq  int    `json:"images_taken_so_far"`
+}
+
+// watchDir starts recording directory-entry events of dir.
+func (r *c13Rec) watchDir(dir string) error {
+	fd, err := syscall.InotifyInit1(syscall.IN_CLOEXEC)
+	if err != nil {
+		return err
+	}
+	if _, err := syscall.InotifyAddWatch(fd, dir, syscall.IN_CREATE|syscall.IN_DELETE|syscall.IN_MOVED_TO|syscall.IN_MOVED_FROM); err != nil {
+		syscall.Close(fd)
+		return err
+	}
+	r.wfd = fd
+	go func() {
+		buf := make([]byte, 64*1024)
+		for {
+			n, err := syscall.Read(fd, buf)
+			if err != nil || n <= 0 {
+				return
+			}
+			off := 0
+			for off+syscall.SizeofInotifyEvent <= n {
+				mask := uint32(buf[off+4]) | uint32(buf[off+5])<<8 | uint32(buf[off+6])<<16 | uint32(buf[off+7])<<24
+				ln := int(uint32(buf[off+12]) | uint32(buf[off+13])<<8 | uint32(buf[off+14])<<16 | uint32(buf[off+15])<<24)
+				name := strings.TrimRight(string(buf[off+syscall.SizeofInotifyEvent:off+syscall.SizeofInotifyEvent+ln]), "\x00")
+				off += syscall.SizeofInotifyEvent + ln
+				op := ""
+				switch {
+				case mask&syscall.IN_CREATE != 0:
+					op = "create"
+				case mask&syscall.IN_DELETE != 0:
+					op = "delete"
+				case mask&syscall.IN_MOVED_TO != 0:
+					op = "moved_to"
+				case mask&syscall.IN_MOVED_FROM != 0:
+					op = "moved_from"
+				}
+				if op == "" {
+					continue
+				}
+				r.cmu.Lock()
+				r.wevents = append(r.wevents, c13DirEvent{Name: name, Op: op, Seq: -1})
+				r.cmu.Unlock()
+			}
+		}
+	}()
+	return nil
+}
+
+func (r *c13Rec) stopWatch() {
+	if r.wfd > 0 {
+		syscall.Close(r.wfd)
+		r.wfd = 0
+	}
 }
 
 type c13FileID struct {
